@@ -359,7 +359,8 @@ def parts(tier):
     q = tier == "quick"
     centre = st.tuples(S.any_numbers(50), S.any_numbers(50))
     centre0 = st.one_of(st.just((0, 0)), centre, centre)
-    size = S.positive_numbers(0.001, 1000.0)
+    size = st.one_of(S.positive_numbers(0.001, 1000.0), S.positive_numbers(0.001, 1000.0),
+                     st.sampled_from([10**4, 2.5e5, 10**6, 1e7, F(10**6, 3)]))
     sq = st.fixed_dictionaries({"side": size, "center": centre0})
     reg = st.fixed_dictionaries({"nsides": st.one_of(st.integers(3, 60), st.just(4)), "radius": size, "center": centre0})
     cir = st.fixed_dictionaries({"ndivangle": st.integers(4, 128), "radius": size, "center": centre0})
